@@ -55,6 +55,21 @@ def replay(col, case):
             col.count(1)
             if not allclose(got, want, 1e-9):
                 col.violation(label + "-wrong-value-" + dtype + "-jacobian", dict(rep, expected=want.tolist(), observed=got.tolist()))
+    # integer-typed covariance matrices (whole-number variances are stored that way often enough)
+    if np.all(Sa == np.round(Sa)) and np.all(Sy == np.round(Sy)):
+        Sai, Syi = Sa.astype(int), Sy.astype(int)
+        for label, fn, want in (("error_covariance_matrix", lambda: error_covariance_matrix(K, Sai, Syi), S),
+                                ("retrieval_gain_matrix", lambda: retrieval_gain_matrix(K, Sai, Syi), G),
+                                ("averaging_kernel_matrix", lambda: averaging_kernel_matrix(K, Sai, Syi), A)):
+            try:
+                got = np.asarray(fn(), dtype=float)
+            except Exception as ex:
+                col.violation(label + "-raises-" + type(ex).__name__ + "-int-covariances", dict(rep, observed=repr(ex)[:200]))
+                continue
+            col.count(1)
+            col.bump("int_covariance_calls")
+            if not allclose(got, want, 1e-9):
+                col.violation(label + "-wrong-value-int-covariances", dict(rep, expected=want.tolist(), observed=got.tolist()))
     # both covariances at a tiny absolute scale (2^-40, exact in binary): S scales, G and A do not (ScaleLaw)
     c = 2.0 ** -40
     for label, fn, want in (("error_covariance_matrix", lambda: error_covariance_matrix(K, Sa * c, Sy * c), S * c),
